@@ -46,6 +46,26 @@ ENGINES['ebuf'] = {
               'malloc of the repo objects (sim/alloc.c: accounting + injected failures at allow-listed callers)'],
 }
 
+MODULES = ['idem', 'null', 'dup', 'skip', 'htons', 'setattr', 'setflowdef', 'delay', 'match_attr', 'probe_uref',
+           'queue_sink', 'queue_source', 'queue']
+ENGINES['epipe'] = {
+    'src': ['harness/epipe.c', 'harness/epipe_req.c'],
+    'sim_src': ['sim/alloc.c', 'sim/umem_sim.c', 'sim/upump_sim.c'],
+    'repo_src': ['lib/upipe/ubuf_block_mem.c', 'lib/upipe/ubuf_mem_common.c', 'lib/upipe/ubuf_pic_mem.c',
+                 'lib/upipe/ubuf_pic_common.c', 'lib/upipe/ubuf_sound_mem.c', 'lib/upipe/ubuf_sound_common.c',
+                 'lib/upipe/ubuf_mem.c', 'lib/upipe/ubuf_pic.c', 'lib/upipe/uref_pic_flow.c',
+                 'lib/upipe/udict_inline.c', 'lib/upipe/uref_std.c', 'lib/upipe/upump_common.c',
+                 'lib/upipe/uprobe.c'] +
+                ['lib/upipe-modules/upipe_%s.c' % m for m in MODULES],
+    'track_alloc': True,
+    'real': ['lib/upipe-modules/upipe_%s.c' % m for m in MODULES] +
+            ['include/upipe/upipe_helper_output.h', 'include/upipe/upipe_helper_input.h', 'include/upipe/upipe_helper_subpipe.h',
+             'include/upipe/upipe.h', 'include/upipe/urequest.h', 'lib/upipe/uref_std.c', 'lib/upipe/udict_inline.c',
+             'lib/upipe/ubuf_block_mem.c', 'lib/upipe/upump_common.c', 'include/upipe/uqueue.h'],
+    'stubs': ['event loop (sim/upump_sim.c) and clock', 'kernel eventfd', 'allocator (umem_sim + malloc layer with injected failures)',
+              'application side: mock source, mock sinks (accept / reject flow definitions, lodge requests), recording probes'],
+}
+
 SC = ('interleavings are explored under sequential consistency at the yield points of DESIGN.md 2.1 '
       '(every uatomic operation, every plain ring-element access, every descriptor read/write)')
 
@@ -118,6 +138,20 @@ PROPS['C10'] = {
                     'udict structure allocation (unchecked in udict_inline_alloc) is never failed'],
 }
 
+PIPE_RULE = ('one case = (pipeline, history, choices): a chain of 1-4 pipes drawn from {idem, skip, htons, setattr, setflowdef, delay, '
+             'match_attr, probe_uref}, or a dup pipe with 1-3 outputs, or queue_sink -> queue_source in one event loop (queue length 1-4), '
+             'between a mock source and mock sinks; 5-40 operations (input bursts of sequence-numbered, possibly empty or segmented buffers; '
+             'set_flow_def with accepted and rejected definitions; set_output to NULL / back / a new sink at any position; sink switches to '
+             'reject once/for a while/for ever; option setters; getters; flush; run the loop; add a dup output; release a handle), allocation faults attached to '
+             'operations, pool depths 0/1/2/8, teardown order. Distinct = distinct (plan hash, decision-tape hash).')
+PIPE_ASSUME = ['one simulated thread; nondeterminism = order of ready pumps, allocator failures, and the instants chosen by the plan',
+               'the reference model of upipe_helper_output (drop without flow def / output, negotiate before sending, renegotiate after a change, invalid after a rejection) is the specification the real pipes are compared with',
+               'once an injected allocation failure fired in a run, only the model-free oracles stay armed (order and exactly-once at sinks, flow def before data, ready/dead ordering, nothing left allocated)',
+               'catalogue = the 12 pipe types listed under real_code; other modules are not exercised']
+for _p in ('C01', 'C04', 'C05', 'C20'):
+    PROPS[_p] = {'engine': 'epipe', 'quick_time': 30, 'thorough_time': 600, 'rule': PIPE_RULE, 'assumptions': list(PIPE_ASSUME)}
+PROPS['C20']['assumptions'].append('getter side effects are decided by a differential run: the same plan is executed with and without its getter calls (same choices) and the histories seen by sinks and probes must be identical')
+
 TECH = 'deterministic simulation with fault injection: seeded search over schedules / fault sequences, reference-model oracle, minimised replay files'
 
 PROPS['C07'].update({
@@ -144,7 +178,17 @@ for _p, _d in (('C02', 'C02'), ('C03', 'C03'), ('C10', 'C10')):
         'level_note': 'sampling, not enumeration; single simulated thread; trusted base = sim/umem_sim.c, sim/alloc.c and the models in harness/ebuf*.c',
         'design_ref': 'DESIGN.md section 5, ' + _d})
 
+for _p in ('C01', 'C04', 'C05', 'C20'):
+    PROPS[_p].update({
+        'technique': 'deterministic simulation with fault injection: seeded pipelines of real pipes between a mock source and mock sinks over a simulated event loop and allocator; reference model of the output helper and per-pipe transforms; lifecycle, negotiation, conservation and leak oracles; minimised replay files',
+        'level_note': 'sampling, not enumeration; single simulated thread; catalogue of 12 pipe types; trusted base = sim/*, the model in harness/epipe.c',
+        'design_ref': 'DESIGN.md section 5, E-pipe / ' + _p})
+
 LEVEL_TEXT = {
+    'C01': 'Seeded pipeline histories biased towards lifetime edges (re-plumbing to NULL, release in mid-run, teardown orders, allocation failures): every pipe throws dead exactly once, sinks are never destroyed while referenced by the application, all managers and probes return to one reference, nothing stays allocated. Evidence, not proof.',
+    'C04': 'Seeded pipeline histories: ready first, dead exactly once and last, no event/data/flow definition after dead; every buffer reaches a sink under an accepted flow definition equal to the one in force (reference model and upstream getter), none after a rejection. Evidence, not proof.',
+    'C05': 'Seeded pipeline histories against a reference model of every catalogue pipe: per sink the delivered sequence (numbers, payload, attributes, dates) equals the model, in order, exactly once; queues deliver held buffers first and in order, flush may only lose what was not delivered yet. Evidence, not proof.',
+    'C20': 'Seeded pipeline histories with getter calls at random instants: getters return what the model says was set (a failed setter leaves the previous value), and a differential run without the getter calls must show identical histories. Evidence, not proof.',
     'C03': 'Seeded histories of block operations against a plain byte-string model, with allocation failures injected inside operations and out-of-range arguments; every handle is re-read (random probe first, then segment by segment) after every operation. Found and fixed seven defects. Evidence, not proof.',
     'C02': 'Same engine with write mappings: a granted write may only change the handle it was issued on; exclusive never-sliced memory must be writable. Evidence, not proof.',
     'C10': 'Seeded histories of dictionary operations against a typed-map model, with storage-growth failures injected inside set/import/dup. Evidence, not proof.',
@@ -156,8 +200,8 @@ LEVEL_TEXT = {
 
 NOT_YET = 'not claimed yet: engine under construction (DESIGN.md section 10)'
 NOT_APPLICABLE = {
-    'C01': NOT_YET, 'C04': NOT_YET, 'C05': NOT_YET, 'C06': NOT_YET,
-    'C12': NOT_YET, 'C14': NOT_YET, 'C15': NOT_YET, 'C16': NOT_YET, 'C20': NOT_YET,
+    'C06': NOT_YET,
+    'C12': NOT_YET, 'C14': NOT_YET, 'C15': NOT_YET, 'C16': NOT_YET,
     'C11': 'pure arithmetic on eight integer fields of one uref: no schedule, clock, fault or second party for a simulator to vary (DESIGN.md section 6)',
     'C17': 'NAL conversion / exp-Golomb are pure functions of their input; the framers need bitstream h264/h265 headers that are absent from the sandbox (DESIGN.md section 6)',
     'C18': 'bit writer/readers are pure functions of (fields, buffer size, segmentation); nothing blocks, allocates, times out or is shared (DESIGN.md section 6)',
